@@ -80,13 +80,28 @@ func numSortMismatch(t *model.Table, index string) bool {
 		h := model.Canon(it[hash])
 		parts[h] = append(parts[h], it[rng])
 	}
+	// a stored number keeps the text it was written with until an UpdateItem
+	// re-serialises the item (plain notation): both renderings are possible
+	renderings := func(v model.AV) []string {
+		out := []string{implKeyRender(v)}
+		if v.T == "N" {
+			if d, ok := model.ParseDec(v.S); ok && d.Plain() != v.S {
+				out = append(out, d.Plain())
+			}
+		}
+		return out
+	}
 	for _, vals := range parts {
 		for i := range vals {
 			for j := range vals {
 				c, _ := model.CompareScalar(vals[i], vals[j])
-				tc := strings.Compare(implKeyRender(vals[i]), implKeyRender(vals[j]))
-				if (c < 0) != (tc < 0) || (c == 0) != (tc == 0) {
-					return true
+				for _, ri := range renderings(vals[i]) {
+					for _, rj := range renderings(vals[j]) {
+						tc := strings.Compare(ri, rj)
+						if (c < 0) != (tc < 0) || (c == 0) != (tc == 0) {
+							return true
+						}
+					}
 				}
 			}
 		}
@@ -292,6 +307,34 @@ func guardOp(op model.Op, db *model.DB, usesV2 bool) []string {
 						}
 					}
 				}
+			}
+		}
+	}
+	if op.Kind == "BatchWrite" && (open("F-KEYCOLLIDE") || open("F-NUMKEYTEXT")) {
+		for _, tb := range op.Batch {
+			bt := db.Tables[tb.Table]
+			if bt == nil {
+				continue
+			}
+			seen := map[string]string{}
+			for ck, it := range bt.Items {
+				seen[implKey(it, bt.Schema.Hash, bt.Schema.Range)] = ck
+			}
+			for _, r := range tb.Reqs {
+				k := r.Put
+				if k == nil {
+					k = r.Delete
+				}
+				ck, ok := bt.KeyOf(k)
+				if !ok {
+					continue
+				}
+				rk := implKey(k, bt.Schema.Hash, bt.Schema.Range)
+				if prev, dup := seen[rk]; dup && prev != ck {
+					add("F-KEYCOLLIDE")
+					add("F-NUMKEYTEXT")
+				}
+				seen[rk] = ck
 			}
 		}
 	}
